@@ -21,6 +21,10 @@ type cThread struct {
 	Orca   string      `json:"orca"`
 	Reqs   []stack.Req `json:"reqs"`
 	FailAt int         `json:"fail_at"` // handler-call index at which a panic is injected, -1 never
+	// "" or "panic": the handler call panics; "error": it returns an I/O error instead (for Get/GetE
+	// on the error channel). Programs with an "error" thread are judged by the Go-side oracles only
+	// (locks released, no deadlock, every connection ends closed): the lock LTS models panics.
+	FailKind string `json:"fail_kind,omitempty"`
 }
 
 type cProgram struct {
@@ -35,7 +39,11 @@ const cNow = 1700000000
 func newRig(p cProgram) *sched.Rig {
 	ths := make([]*sched.Thread, len(p.Threads))
 	for i, t := range p.Threads {
-		ths[i] = &sched.Thread{Orca: t.Orca, Reqs: t.Reqs, FailAt: t.FailAt, FailKind: "panic"}
+		kind := t.FailKind
+		if kind == "" {
+			kind = "panic"
+		}
+		ths[i] = &sched.Thread{Orca: t.Orca, Reqs: t.Reqs, FailAt: t.FailAt, FailKind: kind}
 	}
 	r := sched.New(ths, p.Locking, p.Multi)
 	r.B.L1.SetNow(cNow)
@@ -220,6 +228,21 @@ func concurrent(e *env, prop string, mode int) {
 			}
 			progs = append(progs, p)
 		}
+		if mode == 12 {
+			// the same failure positions with an I/O error returned instead of a panic: the wrapped
+			// orchestrator then comes back with an error, the path on which a lock release is
+			// easiest to forget
+			n := len(progs)
+			for i := 0; i < n; i++ {
+				if progs[i].Threads[0].FailAt < 0 || i%2 != 0 {
+					continue
+				}
+				q := progs[i]
+				q.Threads = append([]cThread(nil), q.Threads...)
+				q.Threads[0].FailKind = "error"
+				progs = append(progs, q)
+			}
+		}
 	}
 	maxRuns := 40
 	if thorough {
@@ -227,6 +250,12 @@ func concurrent(e *env, prop string, mode int) {
 	}
 	totalRuns := 0
 	for _, p := range progs {
+		goOnly := false
+		for _, t := range p.Threads {
+			if t.FailKind == "error" {
+				goOnly = true
+			}
+		}
 		keys := map[string]bool{}
 		for _, t := range p.Threads {
 			for _, q := range t.Reqs {
@@ -281,7 +310,7 @@ func concurrent(e *env, prop string, mode int) {
 					w.Fail(rig.GoFailure{Kind: "counterexample", What: what, Input: pp,
 						Detail: fmt.Sprintf("thread %d: failed=%v at request %d, %d requests parsed", ti, th.Failed(), th.FailedAtReq, th.Parsed())})
 				}
-				if th.Failed() && th.Parsed() != th.FailedAtReq {
+				if th.Failed() && th.Parsed() != th.FailedAtReq && !goOnly {
 					w.Fail(rig.GoFailure{Kind: "counterexample", What: "a panic underneath a command did not close the connection: the server loop went on to parse further requests",
 						Input: pp, Detail: fmt.Sprintf("thread %d: panic during request %d, %d requests parsed in the end", ti, th.FailedAtReq, th.Parsed()),
 						Tags: []string{"locked-get-swallows-panic"}})
@@ -290,7 +319,11 @@ func concurrent(e *env, prop string, mode int) {
 			overlap := len(p.Threads) > 1
 			w.Count(fmt.Sprintf("threads=%d", len(p.Threads)))
 			w.Count(fmt.Sprintf("locking=%v/multi=%v", p.Locking, p.Multi))
-			w.Add(rig.Case{Desc: pp, Coq: caseGallina(p, rg, ks), Nontrivial: overlap && len(choices) > 4})
+			if goOnly {
+				w.Count("injected-error-runs(go-oracles-only)")
+			} else {
+				w.Add(rig.Case{Desc: pp, Coq: caseGallina(p, rg, ks), Nontrivial: overlap && len(choices) > 4})
+			}
 			if len(p.Sched) > 0 {
 				continue // a replay runs exactly one schedule
 			}
